@@ -52,4 +52,21 @@ def streamedFrag : Frag → Frag
 
 def asStreamed (t : Target) : Target := t.map streamedFrag
 
+/-- the streamed reading of one kind of construct only (`idx`: from-the-end indexes and union
+members, `sl`: slices); the driver uses it to tell WHICH recorded deviation explains a case.
+`streamedFragWith true true = streamedFrag` (`streamedFragWith_both`). -/
+def streamedFragWith (idx sl : Bool) : Frag → Frag
+  | .index i => if idx && decide (i < 0) then .union [] else .index i
+  | .union ms => if idx then .union (ms.filter memOK) else .union ms
+  | .slice a b st => if sl then .slice 0 none 1 else .slice a b st
+  | f => f
+
+theorem streamedFragWith_both (f : Frag) : streamedFragWith true true f = streamedFrag f := by
+  cases f <;> simp [streamedFragWith, streamedFrag]
+
+def asStreamedWith (idx sl : Bool) (t : Target) : Target := t.map (streamedFragWith idx sl)
+
+theorem asStreamedWith_both (t : Target) : asStreamedWith true true t = asStreamed t := by
+  simp [asStreamedWith, asStreamed, funext streamedFragWith_both]
+
 end OjgVerif.Match
